@@ -3,7 +3,7 @@ import IdenaModel.Drivers.Util
 /-! Driver for channel C08 (fork adoption).
 ops: `new base` | `own id height parent empty seed txs` (the node's canonical chain, genesis first) |
 `fb id height parent empty idupd valid seed cert txs` (one bundle of the peer answer, in arrival order;
-cert ∈ n|e|ok|bad) | `sort` | `cfs` | `vsc` | `process` | `apply` | `head` | `canon h` | `cert id` (the raw certificate record) | `txidx t` |
+cert ∈ n|e|ok|bad) | `adv id height parent empty seed txs` (own block added after `process`) | `sort` | `cfs` | `vsc` | `process` | `apply` | `head` | `canon h` | `cert id` (the raw certificate record) | `txidx t` |
 `serve storeCertRange askedIds` (ReadBlockForForkedPeer) | `reverted`.
 The abstract application state is the list of applied block ids; a block body is valid iff the harness marked it
 as an untampered block of its branch; a non-empty certificate is acceptable iff its class is `ok`. -/
@@ -65,6 +65,15 @@ def step (st : St) (line : String) : St × String :=
         | some n' => ({ st with node := some n' }, "ok")
         | none => (st, "bad-op")
     | _, _, _, _, _, _ => (st, "bad-op")
+  | ["adv", id, h, p, e, sd, txs] =>
+    -- an own block the node adds between fork validation and ApplyFork
+    match id.toNat?, h.toNat?, p.toNat?, parseBool e, sd.toNat?, parseTxs txs, st.node with
+    | some id, some h, some p, some e, some sd, some txs, some n =>
+      let st := { st with valid := id :: st.valid }
+      match addBlock (env st) n ⟨id, h, p, e, false, sd, txs⟩ with
+      | some n' => ({ st with node := some n' }, "ok")
+      | none => (st, "bad-op")
+    | _, _, _, _, _, _, _ => (st, "bad-op")
   | ["fb", id, h, p, e, iu, v, sd, c, txs] =>
     match id.toNat?, h.toNat?, p.toNat?, parseBool e, parseBool iu, parseBool v, sd.toNat?, parseCert c, parseTxs txs with
     | some id, some h, some p, some e, some iu, some v, some sd, some c, some txs =>
